@@ -61,7 +61,7 @@ theorem sorted_append {a b : List (Bytes × α)} (ha : Sorted a) (hb : Sorted b)
 
 mutual
 theorem Node.sorted : (n : Node α) → n.WF → Sorted n.toList
-  | .leaf kvs, h => by simp only [Node.WF] at h; simpa [Node.toList, Sorted] using h
+  | .leaf kvs, h => by simp only [Node.WF] at h; simpa [Node.toList, Sorted] using h.2
   | .inner c0 rest, h => by
     simp only [Node.WF] at h
     obtain ⟨h0, hr, hb⟩ := h
@@ -95,7 +95,7 @@ theorem Rest.sorted : (r : Rest α) → r.WF → Sorted r.toList ∧ (∀ s, Res
       · exact hge x hx
       · cases tl with
         | nil => simp [Rest.keys] at hx
-        | cons s' c' t' => exact ge_of_ge_of_le (hs.2 s' rfl x hx) (hb s' rfl).2
+        | cons s' c' t' => exact ge_of_ge_of_le (hs.2 s' rfl x hx) (by rw [(hb s' rfl).2]; simp)
 end
 
 /-! ### Find = lookup in the leaf chain -/
